@@ -254,6 +254,8 @@ class UndoPaths(Analysis):
             if v[0] == 'const':
                 return ('const', -v[1])
             return v[1] if v[0] == 'neg' else ('neg', v)
+        if isinstance(expr, ast.Constant) and isinstance(expr.value, bool):
+            return ('const', 1.0 if expr.value else 0.0)
         c = try_fold(expr)
         if isinstance(c, (int, float)):
             return ('const', float(c))
@@ -274,6 +276,10 @@ class UndoPaths(Analysis):
                     if isinstance(val, ast.BinOp) and isinstance(val.op, ast.MatMult) \
                             and norm(val.right) == self.vec and isinstance(val.left, ast.Name):
                         step = env.get('@' + val.left.id, ('?', norm(val)))
+                    elif isinstance(val, ast.BinOp) and isinstance(val.op, ast.MatMult) \
+                            and norm(val.right) == self.vec and isinstance(val.left, ast.Call) \
+                            and call_name(val.left) in self.rot_kinds and len(val.left.args) == 1:
+                        step = (self.rot_kinds[call_name(val.left)], self._val(val.left.args[0], env))
                     seq = seq + (step,)
                 elif isinstance(val, ast.Call) and call_name(val) in self.rot_kinds and len(val.args) == 1:
                     env['@' + name] = (self.rot_kinds[call_name(val)], self._val(val.args[0], env))
@@ -289,6 +295,21 @@ class UndoPaths(Analysis):
                     env[stmt.target.id] = ('assigned', stmt.target.id, stmt.lineno)
             out.add((tuple(sorted(env.items())), seq))
         return frozenset(out)
+
+    def assume(self, test, pol, state):
+        return frozenset(rec for rec in state if _flag_assume(dict(rec[0]), test, pol))
+
+
+def _flag_assume(env, test, pol):
+    """False when a test on a local boolean flag contradicts its known value."""
+    neg = False
+    while isinstance(test, ast.UnaryOp) and isinstance(test.op, ast.Not):
+        neg, test = not neg, test.operand
+    if isinstance(test, ast.Name):
+        v = env.get(test.id)
+        if isinstance(v, tuple) and v and v[0] == 'const':
+            return bool(v[1]) == (pol != neg)
+    return True
 
 
 def _inverse(step):
@@ -494,7 +515,11 @@ def run(ctx):
             if isinstance(node.value, ast.BinOp) and isinstance(node.value.op, ast.MatMult) \
                     and norm(node.targets[0]) == vec and norm(node.value.right) == vec:
                 m = norm(node.value.left)
-                seq.append(binding.get(m, ('?', m)))
+                lf = node.value.left
+                if isinstance(lf, ast.Call) and call_name(lf) in rot_fns and len(lf.args) == 1:
+                    seq.append((call_name(lf), norm(lf.args[0])))
+                else:
+                    seq.append(binding.get(m, ('?', m)))
     # angle variable names: the one assigned under the z-alignment / y-alignment
     z_align, y_align = None, None
     for node in walk_no_nested(fn):
